@@ -289,16 +289,26 @@ def _fast_scan(chk, repo, folder, sc):
     ff = ff_for(chk, f, "C18.R6")
     calls = sorted(find_calls(f.node, "self.__send_fast_scan_message"), key=lambda c: c.lineno)
     chk.floor("R6", len(calls), 3, "fast-scan probes")
+    # the values in force at the first probe: the straight-line assignments that precede it (literals or names, whichever)
     init = {}
+    first_stmt = ff.stmt_of(calls[0]) if calls else None
     for n in f.node.body:
+        if first_stmt is not None and any(x is calls[0] for x in ast.walk(n)):
+            break
         if isinstance(n, ast.Assign) and isinstance(n.targets[0], ast.Name):
-            init[n.targets[0].id] = folder.try_fold(n.value, sc, None)
-    chk.check(init.get("lss_id") == [0, 0, 0, 0] and init.get("lss_bit_check") == 128 and init.get("lss_sub") == 0 and init.get("lss_next") == 0, "R6",
-              f"{L}:LssMaster.fast_scan | initial probe (id 0, bit check 128, sub 0, next 0)", f.loc(), f"initial values {init}")
+            init[n.targets[0].id] = folder.try_fold(n.value, Scope(f.mod, f.cls, {k: v for k, v in init.items() if v is not None}), None)
+    chk.check(init.get("lss_id") == [0, 0, 0, 0], "R6", f"{L}:LssMaster.fast_scan | identity starts as four zero words", f.loc(), f"initial values {init}")
     if calls:
-        chk.check([src(a) for a in calls[0].args] == ["lss_id[0]", "lss_bit_check", "lss_sub", "lss_next"], "R6", f"{L}:LssMaster.fast_scan | first probe arguments", f.loc(calls[0]), src(calls[0]))
+        env0 = {k: v for k, v in init.items() if v is not None}
+        vals = [folder.try_fold(a, Scope(f.mod, f.cls, env0), None) for a in calls[0].args]
+        chk.check(vals == [0, 128, 0, 0], "R6", f"{L}:LssMaster.fast_scan | initial probe (id 0, bit check 128, sub 0, next 0)", f.loc(calls[0]),
+                  f"the first probe is sent with (id, bit check, sub, next) = {vals} ({src(calls[0])}); CiA 305: (0, 0x80, 0, 0)")
     for c in calls[1:]:
-        chk.check([src(a) for a in c.args] == ["lss_id[lss_sub]", "lss_bit_check", "lss_sub", "lss_next"], "R6", f"{L}:LssMaster.fast_scan | probe arguments line {c.lineno}", f.loc(c), src(c))
+        got = [src(a) for a in c.args]
+        in_bit_loop = any(isinstance(w, ast.While) and "lss_bit_check" in src(w.test) and any(x is c for x in ast.walk(w)) for w in own_nodes(f.node))
+        # behind the bit loop the bit-check counter is 0: the confirm probe may name the counter or say 0
+        ok_args = got == ["lss_id[lss_sub]", "lss_bit_check", "lss_sub", "lss_next"] or (not in_bit_loop and got == ["lss_id[lss_sub]", "0", "lss_sub", "lss_next"])
+        chk.check(ok_args, "R6", f"{L}:LssMaster.fast_scan | probe arguments line {c.lineno}", f.loc(c), src(c))
     whiles = [n for n in own_nodes(f.node) if isinstance(n, ast.While)]
     outer = [w for w in whiles if ff.is_form(w.test, "lss_sub < 4", "lss_sub <= 3")]
     inner = [w for w in whiles if ff.is_form(w.test, "lss_bit_check > 0", "lss_bit_check >= 1")]
@@ -347,7 +357,7 @@ def _fast_scan(chk, repo, folder, sc):
                 if isinstance(n, ast.If) and any(s_ is r for s_ in n.body):
                     ig = n.test
             ok = ig is not None and isinstance(ig, ast.UnaryOp) and isinstance(ig.operand, ast.Call) and src(ig.operand.func) == "self.__send_fast_scan_message" \
-                and [src(a) for a in ig.operand.args] == ["lss_id[lss_sub]", "lss_bit_check", "lss_sub", "lss_next"]
+                and [src(a) for a in ig.operand.args] in (["lss_id[lss_sub]", "lss_bit_check", "lss_sub", "lss_next"], ["lss_id[lss_sub]", "0", "lss_sub", "lss_next"])
             if ok:
                 # it is the confirm probe: issued after LSSNext was advanced
                 nx = [n for n in ast.walk(outer[0]) if isinstance(n, ast.Assign) and src(n.targets[0]) == "lss_next"]
